@@ -56,6 +56,12 @@ func (x *Exec) heapGet(st *State, key string, sort Sort) *Term {
 		x.curAlloc = st.Alloc
 	}
 	x.rangeAxiom(key, t)
+	if st.Alloc != nil && st.Alloc != x.curAlloc && !x.dry {
+		// first touched in a later state: the component is unchanged since entry, and the
+		// allocation invariant holds in this state too (objects allocated by callees meanwhile)
+		x.curAlloc = st.Alloc
+		x.rangeAxiom(key, t)
+	}
 	return t
 }
 
@@ -74,10 +80,14 @@ func (x *Exec) rangeAxiom(key string, t *Term) {
 	if !ok || l.Type == nil {
 		return
 	}
-	if x.ranged[t.id] {
+	rk := t.id
+	if x.curAlloc != nil {
+		rk = t.id*1000003 + x.curAlloc.id
+	}
+	if x.ranged[rk] {
 		return
 	}
-	x.ranged[t.id] = true
+	x.ranged[rk] = true
 	c := x.C
 	var lo, hi *Term
 	allocBound := false
